@@ -453,6 +453,9 @@ OptJevo    == /\ pl.stage = "opt" /\ "jevo" \in Kinds /\ pl.fl = "jor"
               /\ LET act == ActiveBlocks(pl.idx, pl.a)
                  IN Cardinality({pl.hdrs[b].D[1] : b \in act}) = Cardinality(act)
               /\ \E sigma \in Sigmas : pl' = [pl EXCEPT !.stage = "build"] @@ [kind |-> "jevo", sigma |-> sigma]
+\* gram_schmidt on nearly parallel vectors  S v,  S v + c_1,  S v + c_2, (S v + c_3),  S = 2^20: needs >= 3 components
+OptGsIll   == /\ pl.stage = "opt" /\ "gsill" \in Kinds /\ pl.fl # "jor" /\ pl.m >= 3
+              /\ pl' = [pl EXCEPT !.stage = "build"] @@ [kind |-> "gsill"]
 GsCols(m) == Min(m, 3)
 OptGsBegin == /\ pl.stage = "opt" /\ "gs" \in Kinds /\ pl.fl # "jor"
               /\ pl' = [pl EXCEPT !.stage = "gsrows"] @@ [kind |-> "gs", C |-> <<>>]
@@ -516,8 +519,13 @@ ExpLanczos(bs, comps, nv2, sigma, nO) ==
         raynum |-> ISum([j \in 1..mE |-> ec[j].mu * ec[j].W]) - sigma * nv2]   \* E <= raynum / nv2, equal for N = 1
 
 \* exp(i pi/2 t (A + sigma)) v  =  sum_lam i^(t (lam + sigma)) c_lam   when the reachable spectrum is real
+\* general exponents  delta = (re + i im) / 4,  given as a Python float or complex;  run(delta) without `normalize`
+\* returns the normalized vector iff Re(delta) = 0 (documented default; ArnoldiEvolution: never)
+DeltaTable == LET T == << [re |-> 1, im |-> 0, ctype |-> "float"],      [re |-> 0 - 2, im |-> 3, ctype |-> "complex"],
+                         [re |-> 0 - 1, im |-> 0, ctype |-> "complex"],  [re |-> 0, im |-> 1, ctype |-> "complex"] >>
+              IN [i \in 1..Len(T) |-> T[i] @@ [normdefault |-> (T[i].re = 0)]]
 ExpEvo(bs, comps, sigma) ==
-    [runs |-> NmaxTable(Len(comps)), exact |-> RealSpec(comps),
+    [runs |-> NmaxTable(Len(comps)), exact |-> RealSpec(comps), deltas |-> DeltaTable,
      Uv |-> IF RealSpec(comps)
             THEN [t \in 1..3 |-> BVSum([i \in 1..Len(comps) |-> BVScale(IPow(t * (comps[i].lam[1] + sigma)), comps[i].c)], BVZero(bs))]
             ELSE <<>>]
@@ -543,6 +551,17 @@ ExpGmres(bs, comps, x0k) ==
 ExpGmresIll(bs, comps) ==
     [mg |-> Len(comps),
      xs |-> BVSum([i \in 1..Len(comps) |-> BVScale(CInt(DScale \div comps[i].lam[1]), comps[i].c)], BVZero(bs))]
+
+\* the vectors and their exact Gram matrix as a polynomial in S:  <w_i|w_j> = g2 S^2 + g1 S + g0  (Gaussian integers;
+\* S^2 |v|^2 itself would not fit into 32 bits)
+GsIllS == Pow2(20)
+ExpGsIll(bs, comps, v) ==
+    LET nv == Min(Len(comps) - 1, 3) + 1          \* v = sum of all components: only m - 1 of them are independent of v
+        pert == [r \in 1..nv |-> IF r = 1 THEN BVZero(bs) ELSE comps[r - 1].c]
+    IN [S |-> GsIllS,
+        vecs |-> [r \in 1..nv |-> BVAdd(BVScale(CInt(GsIllS), v), pert[r])],
+        gram |-> [i \in 1..nv |-> [j \in 1..nv |->
+                    [g2 |-> BVDot(v, v), g1 |-> CAdd(BVDot(v, pert[j]), BVDot(pert[i], v)), g0 |-> BVDot(pert[i], pert[j])]]]]
 
 \* gram_schmidt on integer combinations  vec_r = sum_j C[r][j] c_j  of the (linearly independent) components:
 \* vector r survives iff row r of C is not in the span of the rows before it
@@ -604,6 +623,7 @@ Build ==
              ELSE IF pl.kind = "arnoldi" THEN [sigma |-> pl.sigma] @@ ExpArnoldi(comps, pl.sigma)
              ELSE IF pl.kind = "gmres" THEN [x0k |-> pl.x0k] @@ ExpGmres(full, comps, pl.x0k)
              ELSE IF pl.kind = "gmresill" THEN ExpGmresIll(full, comps)
+             ELSE IF pl.kind = "gsill" THEN ExpGsIll(full, comps, BVSum([i \in 1..Len(comps) |-> comps[i].c], BVZero(full)))
              ELSE [C |-> pl.C] @@ ExpGs(full, comps, pl.C))
 
 PLUnch == UNCHANGED cfvars
@@ -616,6 +636,7 @@ DoOptEvo     == OptEvo /\ PLUnch
 DoOptArnoldi == OptArnoldi /\ PLUnch
 DoOptGmres   == OptGmres /\ PLUnch
 DoOptGmresIll == OptGmresIll /\ PLUnch
+DoOptGsIll   == OptGsIll /\ PLUnch
 DoOptGsBegin == OptGsBegin /\ PLUnch
 DoOptGsRow   == OptGsRow /\ PLUnch
 DoOptGsEnd   == OptGsEnd /\ PLUnch
@@ -624,7 +645,7 @@ DoOptJevo    == OptJevo /\ PLUnch
 DoBuildJ     == BuildJ /\ PLUnch
 
 NextPL == \/ DoBeginBlock \/ DoSetD \/ DoEndOp \/ DoSetA \/ DoOptLanczos \/ DoOptEvo \/ DoOptArnoldi
-          \/ DoOptGmres \/ DoOptGmresIll \/ DoOptGsBegin \/ DoOptGsRow \/ DoOptGsEnd \/ DoBuild \/ DoOptJevo \/ DoBuildJ
+          \/ DoOptGmres \/ DoOptGmresIll \/ DoOptGsIll \/ DoOptGsBegin \/ DoOptGsRow \/ DoOptGsEnd \/ DoBuild \/ DoOptJevo \/ DoBuildJ
 SpecPL == InitPL /\ [][NextPL]_<<cfvars, pl>>
 
 \* ---- certificates: the planted data are what they claim to be (evaluated on every finished case) ---
@@ -674,6 +695,15 @@ CaseRight ==
                                    /\ Len(pl.ritz[wh]) = pl.m
                                    /\ \A i \in 1..(pl.m - 1) : pl.ritz[wh][i].key <= pl.ritz[wh][i + 1].key)
         /\ (pl.kind = "gs" => Len(pl.kept) <= GsCols(pl.m))
+        /\ (pl.kind = "gsill" =>
+              /\ Len(pl.vecs) >= 3
+              /\ \A i, j \in 1..Len(pl.vecs) :                                 \* the Gram polynomial is the Gram matrix
+                   LET d1 == [b \in 1..Len(pl.v) |-> [x \in 1..Len(pl.v[b]) |-> CSub(pl.vecs[i][b][x], CMul(CInt(pl.S), pl.v[b][x]))]]
+                       d2 == [b \in 1..Len(pl.v) |-> [x \in 1..Len(pl.v[b]) |-> CSub(pl.vecs[j][b][x], CMul(CInt(pl.S), pl.v[b][x]))]]
+                   IN /\ pl.gram[i][j].g0 = BVDot(d1, d2)
+                      /\ pl.gram[i][j].g1 = CAdd(BVDot(pl.v, d2), BVDot(d1, pl.v))
+                      /\ pl.gram[i][j].g2 = BVDot(pl.v, pl.v))
+        /\ (pl.kind = "evo" => \A i \in 1..Len(pl.deltas) : pl.deltas[i].normdefault = (pl.deltas[i].re = 0))
         /\ (pl.kind = "gmres" => pl.mg >= 0 /\ pl.mg <= pl.m)
         /\ (pl.kind = "gmresill" =>
               /\ pl.mg = pl.m /\ pl.ds = Pow2(DyE)
